@@ -13,6 +13,7 @@ import HkModel.Drive.Publish
 import HkModel.Drive.Lex
 import HkModel.Drive.Crash
 import HkModel.Drive.Pull
+import HkModel.Drive.Conc
 /-! `hkdriver <mode>`: reads protocol lines on stdin, answers one line per input line. -/
 open Hk
 
@@ -71,6 +72,7 @@ def main (args : List String) : IO UInt32 := do
   | ["reload"] => runPure DriveReload.processLine
   | ["publish"] => runPure DrivePublish.processLine
   | ["cfgfmt"] => runPure DriveLex.processLine
+  | ["leaseconc"] => runPure DriveConc.processLine
   | ["crash"] => runPure DriveCrash.processLine
   | ["pullops"] =>
     let st ← loopPull stdin stdout {}
